@@ -73,8 +73,9 @@ def gen_cases(rng, tier):
                     s_["der_scale"] = ocpgen.rnd(rng, 0.2, 8.0, 3)
                     sp["clone_der_scale"] = s_["name"]
                 continue
-            sp["constraints"] = [ocpgen.gen_constraint(rng, sp, 100 * (k + 1) + j, grids=["control", "integrator"],
-                                                       allow_offsets=False) for j in range(rng.randint(1, 2))]
+            sp["constraints"] = [ocpgen.gen_constraint(rng, sp, 100 * (k + 1) + j, grids=["control", "integrator"] + (
+                ["integrator_roots"] if sp["method"]["cls"] == "DC" else []), allow_offsets=False)
+                for j in range(rng.randint(1, 2))]
             sp["objective"] = ocpgen.gen_objective(rng, sp, rng.randint(1, 2))
             if rng.random() < 0.4:
                 # the stage's own step lengths inside a term and a constraint
